@@ -41,6 +41,8 @@ thread_local! {
     /// countdown to an injected panic in eq/cmp/hash/fmt (0 = off)
     static CB_PANIC: Cell<i64> = const { Cell::new(0) };
     static CB_CALLS: Cell<u64> = const { Cell::new(0) };
+    /// countdown to an injected panic in the destructor of `TD` (0 = off)
+    static DROP_PANIC: Cell<i64> = const { Cell::new(0) };
     static PROBE: Cell<Option<(fn(*const ()), *const ())>> = const { Cell::new(None) };
 }
 
@@ -443,6 +445,65 @@ impl Hash for TV {
 impl fmt::Debug for TV {
     fn fmt(&self, f: &mut fmt::Formatter) -> fmt::Result {
         fmt::Debug::fmt(&self.core, f)
+    }
+}
+
+/// The `n`-th destructor of a `TD` from now panics (after recording the destruction). 0 = never.
+pub fn drop_panic_at(n: i64) {
+    DROP_PANIC.with(|c| c.set(n));
+}
+
+/// A tracked value whose destructor can be made to panic.
+pub struct TD {
+    core: T8,
+}
+impl TD {
+    pub fn make(tag: u64) -> TD {
+        TD { core: T8::make(tag) }
+    }
+    pub fn id(&self) -> u32 {
+        self.core.id
+    }
+}
+impl Drop for TD {
+    fn drop(&mut self) {
+        // `core` is dropped (and recorded) right after this body, also while unwinding
+        let fire = DROP_PANIC.with(|c| {
+            let v = c.get();
+            if v > 0 {
+                c.set(v - 1);
+                v == 1
+            } else {
+                false
+            }
+        });
+        if fire && !std::thread::panicking() {
+            panic!("injected destructor panic");
+        }
+    }
+}
+
+/// A value with no drop glue whose `Clone` is observable (counted, fresh serial number).
+pub struct ND {
+    pub serial: u64,
+    pub tag: u64,
+}
+static ND_SERIAL: AtomicU64 = AtomicU64::new(1);
+impl ND {
+    pub fn make(tag: u64) -> ND {
+        ND {
+            serial: ND_SERIAL.fetch_add(1, Relaxed),
+            tag,
+        }
+    }
+}
+impl Clone for ND {
+    fn clone(&self) -> Self {
+        clone_tick();
+        ND {
+            serial: ND_SERIAL.fetch_add(1, Relaxed),
+            tag: self.tag,
+        }
     }
 }
 
